@@ -357,6 +357,12 @@ def execute(triple, prop):
                 # aborted the task before the CSV was written: behaviour on task failure is outside C19
                 ctx.probe("figure_step_raised_before_csv")
                 continue
+            if expect_fail and pool is not None and pool.errors and not os.path.exists(p):
+                # another file of the batch makes the pipeline raise: the real pool abandons the rest of that file's
+                # chunk (and a CLI that batches files itself the rest of its batch); what happens to the other files
+                # when one fails is outside C19
+                ctx.probe("output_missing_after_a_failing_file")
+                continue
             ctx.check(os.path.exists(p), "output_missing",
                       lambda: f"{s}.csv was not written (cli exception: {cli_exc!r}; worker errors: {pool.errors if pool else None})",
                       key=key)
